@@ -157,11 +157,12 @@ def handleObs (st : St) (toks : List String) (out : IO.FS.Stream) : IO St := do
       | none =>
         -- initial observation
         let mo := h.model.observe h.nLevels
+        let hd := hiddenDiff h.model (hiddenOf toks)
         let mut st := st
-        if mo != impl then
-          emit out s!"K {h.id} init {",".intercalate (diffObs mo impl)}"
+        if mo != impl || !hd.isEmpty then
+          emit out s!"K {h.id} init {",".intercalate (diffObs mo impl ++ hd)}"
           st := { st with nK := st.nK + 1 }
-        pure { st with hist := some { h with prev := some impl, kDead := mo != impl } }
+        pure { st with hist := some { h with prev := some impl, kDead := mo != impl || !hd.isEmpty } }
       | some (op, opLine) =>
         let prev := h.prev.getD impl
         let mut st := st
@@ -179,8 +180,8 @@ def handleObs (st : St) (toks : List String) (out : IO.FS.Stream) : IO St := do
             emit out s!"K {h.id} {h.opIdx} fault:impl=ok,model=FAULT tr={if prev.trading then 1 else 0} op={opLine}"
             st := { st with nK := st.nK + 1 }
             h := { h with kDead := true }
-          else if mo != impl || mres != res then
-            let fields := diffObs mo impl ++ (if mres != res then ["result"] else [])
+          else if mo != impl || mres != res || !(hiddenDiff m' (hiddenOf toks)).isEmpty then
+            let fields := diffObs mo impl ++ (if mres != res then ["result"] else []) ++ hiddenDiff m' (hiddenOf toks)
             emit out s!"K {h.id} {h.opIdx} {",".intercalate fields} tr={if prev.trading then 1 else 0} op={opLine}"
             st := { st with nK := st.nK + 1 }
             h := { h with kDead := true }
@@ -218,6 +219,13 @@ def handleObs (st : St) (toks : List String) (out : IO.FS.Stream) : IO St := do
             if !fails.isEmpty then
               emit out s!"A {a} {h.id} {h.opIdx} {",".intercalate fails} tr={if prev.trading then 1 else 0} op={opLine}"
               st := { st with nA := st.nA + 1 }
+          -- the book's own trading flag (read from its snapshot state) is the one last requested
+          match op, hiddenOf toks with
+          | .trading on, some hs =>
+            if (splitC hs "/")[1]? != some (if on then "1" else "0") then
+              emit out s!"A C13 {h.id} {h.opIdx} flag_in_snapshot_not_switched tr={if prev.trading then 1 else 0} op={opLine}"
+              st := { st with nA := st.nA + 1 }
+          | _, _ => pure ()
         -- statistics
         let tags := tagsOf prev impl op res
         let mut stats := st.stats
